@@ -186,7 +186,11 @@ def edit_tables(rng, tabs):
         elif m < 0.8 and len(r) > 1:
             r.pop(j)
         else:
-            r.insert(j, (False, '-i', ['eth7']))
+            keys = set(x[1] for x in r)
+            k2 = '-i' if '-i' not in keys else ('-o' if '-o' not in keys else None)
+            if k2 is None:
+                return None
+            r.insert(j, (False, k2, ['eth7']))
         if [tuple(x) for x in r] == [tuple(x) for x in c['rules'][i]]:
             return None
         c['rules'][i] = r
@@ -366,7 +370,7 @@ def main(ctx):
                         if rng.random() < 0.5:
                             dev_ipt.pop(i)
                         else:
-                            dev_ipt[i] = dev_ipt[i] + ' -i eth9'
+                            dev_ipt[i] = dev_ipt[i] + (' -i eth9' if ' -i ' not in dev_ipt[i] else (' -o eth9' if ' -o ' not in dev_ipt[i] else ' --comment x'))
                         expect_equal = False
             else:
                 t2 = src
